@@ -168,3 +168,30 @@ def theory_example():
     g['inc'] = [[2, 12], [9, 13]]
     g['feat'] = ['theory_example']
     return g
+
+
+def incompatibility_chain_family():
+    """C1@1 {A, B}, C2@1 {X, W}, X -> K, A-K incompatible, and every subset of the four edges K -> Y1, X -> Y2, B -> Y1,
+    B -> Y2 (nodes below the incompatible node and its deriver that a non-selected option may also derive)."""
+    import itertools
+    out = []
+    extra = [[6, 7], [4, 8], [3, 7], [3, 8]]
+    for r in range(len(extra)+1):
+        for sub in itertools.combinations(extra, r):
+            used = {n for e in sub for n in e}
+            g = empty(8 if 8 in used else 7 if 7 in used else 6)
+            g['ch'] = [{'origin': 1, 'opts': [2, 3]}, {'origin': 1, 'opts': [4, 5]}]
+            g['der'] = sorted([[4, 6]] + [list(e) for e in sub if max(e) <= g['n']])
+            g['inc'] = [[2, 6]]
+            g['feat'] = ['incompatibility_chain']
+            if not well_formed(g) and closure_potential(g) == set(range(1, g['n']+1)):
+                out.append(g)
+    return out
+
+
+def staged(g):
+    """The same description, built through the history initialise - add derivation edges - initialise again."""
+    import json
+    h = json.loads(json.dumps(g))
+    h['feat'] = list(h.get('feat', [])) + ['staged_build']
+    return h
